@@ -886,6 +886,13 @@ def failure_props(f, A):
     return props
 
 
+def item_has_clause_for(A, iid, prop):
+    for text, org in A.segs:
+        if org.get("item") == iid and any(p == prop for p, _ in org.get("tags", [])):
+            return True
+    return False
+
+
 def clause_count(A, prop):
     """number of tagged contract lines serving `prop` + names"""
     names = []
@@ -961,6 +968,15 @@ def check_property(prop, tier="quick", seed=0):
                 undecided.append(f"{u}: proof failure outside extracted code (lemma/prelude): {f['message']} {f['where'][:1]}")
                 continue
             props = failure_props(f, A)
+            if prop not in props:
+                # a clause tagged for another property failed in a function that ALSO serves this property and has no
+                # clause of its own tagged for it (e.g. a trait-level contract line): the function's contribution to this
+                # property rests on that clause, so the failure is reported here too
+                for iid in f["items"]:
+                    it0 = next((i for i in A.items if i["id"] == iid), None)
+                    if it0 and prop in it0["props"] and not item_has_clause_for(A, iid, prop):
+                        props.setdefault(prop, []).append("proof-of-" + iid.split("::")[-1].replace(" ", "_") + " (" + ", ".join(f"{p}:{n}" for p, n in f["tags"]) + ")")
+                        break
             if prop not in props:
                 continue
             fails_here.append(f)
